@@ -2,7 +2,7 @@
    one of its own markers through the neighbourhood; everything else is 0.
    MarkerInfo::operator< (markerinfo_lt) is GENERATED from the C++ source. *)
 Require Import MV.Base.Prelude MV.Base.CInt MV.Base.Index MV.Base.BorderSpec.
-Require Import MV.Gen.Scalar_gen MV.Model.Filter MV.Model.Watershed MV.Proof.WatershedProof.
+Require Import MV.Gen.Scalar_gen MV.Model.Filter MV.Model.Watershed MV.Proof.WatershedProof MV.Proof.WatershedComplete.
 
 (* queue order: lowest surface value first, ties by earliest insertion -- on the GENERATED operator< *)
 Theorem C04_queue_order : forall c1 i1 c2 i2,
@@ -35,3 +35,22 @@ Proof.
   intros surf markers bc wl P1 P2 L1 L2 L3. rewrite cwatershed_is_flood by auto.
   now apply flood_markers_and_regions.
 Qed.
+
+(* completeness: the labelled pixels are EXACTLY those a marker can reach by steps of the neighbourhood inside the image
+   (so "pixels no marker can reach are 0" and every reachable pixel does get a label) *)
+Theorem C04_labelled_exactly_the_reachable_pixels : forall surf markers bc wl,
+  pos_shape (shape surf) -> pos_shape (shape bc) -> length (shape bc) = length (shape surf) ->
+  Zlen (data markers) = size (shape surf) -> Zlen (data surf) = size (shape surf) ->
+  let res := fst (cwatershed surf markers bc wl) in
+  forall p, 0 <= p < size (shape surf) -> (nthZ 0 res p <> 0 <-> reach surf markers bc p).
+Proof.
+  intros surf markers bc wl P1 P2 L1 L2 L3. rewrite cwatershed_is_flood by auto.
+  now apply flood_complete.
+Qed.
+
+(* the flood ends because the queue is empty, not because the model's fuel ran out: every queued pixel is finalised *)
+Theorem C04_flood_ends_with_empty_queue : forall surf markers bc wl,
+  pos_shape (shape surf) -> Zlen (data markers) = size (shape surf) -> Zlen (data surf) = size (shape surf) ->
+  w_queue (ws_loop resolve_checked (S (length (data surf))) (shape surf) (ws_neighbours_all (shape surf) bc) (data surf) wl
+             (ws_init (shape surf) (data surf) (data markers) (repeat 0 (length (data surf))) (repeat 0 (length (data surf))))) = [].
+Proof. exact flood_queue_empty_at_exit. Qed.
